@@ -23,6 +23,7 @@ func init() {
 		ruleU2(c, "C01.R8")
 		ruleU1(c, "C01.R9")
 		ruleDiskWrapper(c, "C01.R10")
+		ruleNullBlock(c, "C01.R11")
 	}
 }
 
